@@ -203,6 +203,10 @@ def canon_out(o):
             "terms": C.jterms(C.enc_terms(o, sort_keys=type(o).__name__ != "DictArithmetic"))}
 
 
+def twin_ok(case):
+    return C.no_matrix(case) and (case["op"] != "value" or case["cont"] == "dict")
+
+
 def run_impl(case):
     if case["op"] == "value":
         import qubovert as qv
